@@ -267,6 +267,54 @@ def run_case(inp):
             if not np.allclose(p2, want, atol=1e-3 * (1 + np.abs(want).max())):
                 V("projection", f"simulate_2d of molecules at depth {int(inp['depth'])} px (scale {scale}) differs from the "
                                 f"projected templates by {np.abs(p2 - want).max():.4g}")
+        elif kind == "derived":
+            # simulators derived through replace() / copy() / subset() behave as directly constructed ones
+            tmpl = _smooth(inp["seed"], shape)
+            pos = r.uniform(7, min(N) - 7, size=(3, 3))
+            rot = Rotation.random(3, random_state=inp["seed"])
+            o0, o1 = int(inp["order"]), int(inp["order_to"])
+            s1 = float(inp["scale_to"])
+            base = TomogramSimulator(order=o0, scale=scale)
+            base.add_molecules(Molecules(pos * s1, rot)[:2], tmpl, name="a").add_molecules(Molecules(pos * s1, rot)[2:], tmpl, name="b")
+            direct = TomogramSimulator(order=o1, scale=s1)
+            direct.add_molecules(Molecules(pos * s1, rot)[:2], tmpl, name="a").add_molecules(Molecules(pos * s1, rot)[2:], tmpl, name="b")
+            want = np.asarray(direct.simulate(N))
+            want2 = np.asarray(direct.simulate_2d(N[1:]))
+            for label, der in (("replace", base.replace(order=o1, scale=s1)), ("replace().copy()", base.replace(order=o1, scale=s1).copy()),
+                               ("replace().subset()", base.replace(order=o1, scale=s1).subset(["a", "b"]))):
+                if der.order != o1 or abs(der.scale - s1) > 1e-12:
+                    V("derived", f"{label}(order={o1}, scale={s1}) reports order {der.order}, scale {der.scale}")
+                got = np.asarray(der.simulate(N))
+                if not np.allclose(got, want, atol=1e-4 * (1 + np.abs(want).max())):
+                    V("derived", f"a simulator obtained by {label}(order={o1}, scale={s1}) from (order={o0}, scale={scale}) differs from a "
+                                 f"directly constructed one by {np.abs(got - want).max():.4g}")
+                    break
+                got2 = np.asarray(der.simulate_2d(N[1:]))
+                if not np.allclose(got2, want2, atol=1e-4 * (1 + np.abs(want2).max())):
+                    V("derived", f"simulate_2d of a simulator obtained by {label} differs from a directly constructed one")
+                    break
+        elif kind == "window":
+            # the tomogram is a window of the infinite density: simulating a larger volume with all molecules moved
+            # by the same whole number of voxels and cropping gives the same voxels (molecules straddling any face,
+            # any orientation)
+            tmpl = _smooth(inp["seed"], shape)
+            nm_ = int(inp["nmol"])
+            lo = np.array([-2.0, -2.0, -2.0])
+            hi = np.array(N, dtype=float) + 1.0
+            pos_px = r.uniform(lo, hi, size=(nm_, 3))
+            pos_px[0] = [r.uniform(-1.5, 1.5), N[1] / 2, r.uniform(-1.5, 1.5)]          # low-face corner straddler
+            rot = Rotation.random(nm_, random_state=inp["seed"]) if inp["rotate"] else Rotation.identity(nm_)
+            pad = int(max(shape)) + 2
+            small = TomogramSimulator(order=order, scale=scale)
+            small.add_molecules(Molecules(pos_px * scale, rot), tmpl)
+            bigs = TomogramSimulator(order=order, scale=scale)
+            bigs.add_molecules(Molecules((pos_px + pad) * scale, rot), tmpl)
+            got = np.asarray(small.simulate(N))
+            ref = np.asarray(bigs.simulate(tuple(n_ + 2 * pad for n_ in N)))[pad:pad + N[0], pad:pad + N[1], pad:pad + N[2]]
+            if not np.allclose(got, ref, atol=2e-4 * (1 + np.abs(ref).max())):
+                d = np.abs(got - ref)
+                V("window", f"the volume is not the corresponding window of a larger simulation: max difference {d.max():.4g} at "
+                            f"{np.unravel_index(int(d.argmax()), d.shape)} (order {order}, rotated {bool(inp['rotate'])})")
         elif kind == "outside":
             tmpl = r.integers(1, 5, size=shape).astype(np.float32)
             pos_px = np.array([[-30.0, 5, 5], [N[0] + 25.0, 5, 5], [5, -3.0, N[2] + 2.0], [N[0] / 2, N[1] / 2, N[2] / 2]])
@@ -307,6 +355,14 @@ def oracle(rng, thorough, deep=False, hints=None):
     for it in range(10 if big else 4):
         cases.append(dict(kind="offgrid", tshape=[[13, 13, 13], [14, 14, 14], [12, 13, 14]][it % 3], scale=float(rng.choice([1.0, 0.5])),
                           order=3, volume=[30, 30, 30], rotate=bool(it % 2), seed=int(rng.integers(0, 10 ** 6))))
+    for it in range(6 if big else 3):
+        o0, o1 = [(3, 1), (1, 3), (0, 3), (3, 0), (1, 1), (3, 3)][it % 6]
+        cases.append(dict(kind="derived", tshape=[9, 10, 9], scale=float([1.0, 0.5][it % 2]), order=o0, order_to=o1,
+                          scale_to=float([0.5, 1.0, 1.0][it % 3]), volume=[24, 25, 26], seed=int(rng.integers(0, 10 ** 6))))
+    for it in range(8 if big else 4):
+        cases.append(dict(kind="window", tshape=[[7, 7, 7], [6, 8, 7], [8, 8, 8]][it % 3], scale=float([1.0, 0.5][it % 2]),
+                          order=[1, 3, 0][it % 3], volume=[int(x) for x in rng.integers(12, 18, size=3)], nmol=4, rotate=bool(it % 4 != 3),
+                          seed=int(rng.integers(0, 10 ** 6))))
     cases.append(dict(kind="outside", tshape=[5, 6, 5], scale=1.0, order=1, volume=[16, 16, 16], seed=3))
     viols, stats = [], {"by_kind": {}, "samples": [{"oracle_case": c} for c in cases[:2]]}
     for c in cases:
